@@ -1926,8 +1926,38 @@ UNITS = {
 }
 
 
+_EXT_LOADED = False
+EXT_MODULES = []
+
+
+def load_ext():
+    """Extension modules `harness/tie_ext/<name>.py` (one per builder, so that parallel work does not collide in this file).
+    Each may define  REGISTRY (list of entries, same shape as above), UNITS ({unit: (file, imports)}) and FnExt (a subclass
+    of Fn adding / overriding rules; used for that module's entries unless an entry names its own `fn_class`) and
+    REAL (lean name -> (property, real function, input field names, oracle) for harness/gen_search.py)."""
+    global _EXT_LOADED
+    if _EXT_LOADED:
+        return
+    _EXT_LOADED = True
+    import importlib
+    d = os.path.join(os.path.dirname(os.path.abspath(__file__)), "tie_ext")
+    if not os.path.isdir(d):
+        return
+    for f in sorted(os.listdir(d)):
+        if f.endswith(".py") and not f.startswith("_"):
+            mod = importlib.import_module("harness.tie_ext." + f[:-3])
+            EXT_MODULES.append(mod)
+            for u, spec in getattr(mod, "UNITS", {}).items():
+                UNITS[u] = spec
+            for e in getattr(mod, "REGISTRY", []):
+                if hasattr(mod, "FnExt"):
+                    e.setdefault("fn_class", mod.FnExt)
+                REGISTRY.append(e)
+
+
 def translate_all():
     """returns ({file name: lean source text}, manifest dict)"""
+    load_ext()
     done, outs, manifest = {}, {u: [] for u in UNITS}, {}
     for e in REGISTRY:
         out = outs[e.get("unit", "")]
@@ -1952,7 +1982,7 @@ def translate_all():
             seg = ast.get_source_segment(src, f)
             rec["source_hash"] = hashlib.sha256(seg.encode()).hexdigest()[:16]
             rec["lines"] = [f.lineno, f.end_lineno]
-            fn = Fn(e, src, f, done)
+            fn = e.get("fn_class", Fn)(e, src, f, done)
             binders, ptys, rty, body = fn.translate()
             info.update(status="translated", param_tys=ptys, ret_ty=fn.ret_ty, raises=fn.raises,
                         vararg=bool(e.get("vararg")), kwonly=e.get("kwonly", []), func=e["func"],
@@ -1993,6 +2023,7 @@ def translate_all():
 
 
 def generated_files():
+    load_ext()
     return [f for f, _ in UNITS.values()]
 
 
@@ -2007,7 +2038,11 @@ def write(gen_dir=GEN_DIR):
 
 
 if __name__ == "__main__":
-    m = write()
+    if __package__:                       # `python -m harness.translate`: use the one importable copy of this module
+        from harness import translate as _T
+        m = _T.write()
+    else:
+        m = write()
     for k, r in m.items():
         print("%-75s %s  %s" % (k, r["source_hash"], r["status"]))
     sys.exit(0)
